@@ -1252,3 +1252,61 @@ func g31PackageOrder(r *Repo, rep *Report) {
 		rep.pass("G31")
 	}
 }
+
+// g33SpellableCastType — an unexported field of a struct of another package is read through *(*T)(unsafe.Pointer(…)), where T is
+// printed into derived.gen.go. The field's declared type may itself be unexported by that package (bytes.readOp in
+// bytes.Buffer): its name cannot be written outside the package. Whatever computes the text of T in package derive
+// (the typeStr of a Field) must therefore look at the exportedness of a named field type (Obj().Exported()) before it spells it.
+func g33SpellableCastType(r *Repo, rep *Report) {
+	fi := r.lookup("derive.Fields")
+	if fi == nil {
+		rep.fail(Finding{Rule: "G33", Key: "G33|cast-type|missing", Kind: "undecided", Msg: "derive.Fields not found"})
+		return
+	}
+	// every function reachable (within package derive) from the bodies that call TypeString inside derive.Fields
+	consults := false
+	spells := 0
+	seen := map[*types.Func]bool{}
+	var visit func(body ast.Node, info *types.Info, depth int)
+	visit = func(body ast.Node, info *types.Info, depth int) {
+		ast.Inspect(body, func(m ast.Node) bool {
+			c, ok := m.(*ast.CallExpr)
+			if !ok {
+				return true
+			}
+			fn, _ := callee(info, c).(*types.Func)
+			if fn == nil {
+				return true
+			}
+			if fn.Name() == "Exported" || fn.Name() == "IsExported" {
+				consults = true
+			}
+			if fn.Name() == "TypeString" {
+				spells++
+			}
+			if d := r.Decls[fn]; d != nil && d.Decl.Body != nil && d.Pkg.Name == "derive" && !seen[fn] && depth < 3 {
+				seen[fn] = true
+				visit(d.Decl.Body, d.Pkg.TypesInfo, depth+1)
+			}
+			return true
+		})
+	}
+	// only the type-string closures, not Field.Private (which looks at the exportedness of the field's *name*)
+	ast.Inspect(fi.Decl.Body, func(m ast.Node) bool {
+		if lit, ok := m.(*ast.FuncLit); ok {
+			visit(lit.Body, fi.Pkg.TypesInfo, 0)
+			return false
+		}
+		return true
+	})
+	rep.analysed("cast_type_spellings", spells)
+	switch {
+	case spells == 0:
+		rep.fail(Finding{Rule: "G33", Key: "G33|cast-type|floor", Kind: "undecided", Where: []string{r.pos(fi.Decl.Pos())}, Msg: "derive.Fields no longer computes the text of a field's type in a closure (confirmed by hand)"})
+	case consults:
+		rep.pass("G33")
+	default:
+		rep.fail(Finding{Rule: "G33", Key: "G33|cast-type|unexported-type-spelled", Where: []string{r.pos(fi.Decl.Pos())},
+			Msg: "derive.Fields spells the declared type of an unexported field of an imported struct without looking at whether that type is exported: for bytes.Buffer (lastRead readOp) the cast is *(*bytes.readOp)(unsafe.Pointer(…)), goderive exits 0 and the package does not compile (name readOp not exported by package bytes)"})
+	}
+}
